@@ -1,7 +1,7 @@
 (* C05 — proofs. *)
 From Coq Require Import String.
 From Coq Require Import List ZArith NArith Bool Lia.
-From SeataV Require Import Base.Bytes Tcc.Json Gen.TccTable Tcc.TccModel.
+From SeataV Require Import Base.Bytes Tcc.Json Tcc.JsonEquiv Gen.TccTable Tcc.TccModel.
 Import ListNotations.
 Open Scope Z_scope.
 
@@ -64,6 +64,57 @@ Qed.
 Corollary roundtrip_equiv : forall v w, json_equiv v w -> decode (encode v) = norm w.
 Proof. intros v w H. rewrite roundtrip. exact H. Qed.
 
+(* ---- the normal form is idempotent: json_equiv is respected by decode . encode --------------- *)
+Lemma strip_pos_idem : forall p e, let '(q, e') := strip_pos p e in strip_pos q e' = (q, e').
+Proof.
+  induction p as [p IH|p IH|]; intros e; simpl; try reflexivity. apply IH.
+Qed.
+
+Lemma dy_idem : forall m e, let '(m', e') := dy m e in dy m' e' = (m', e').
+Proof.
+  intros [|p|p] e; simpl; [reflexivity| |];
+    pose proof (strip_pos_idem p e) as H; destruct (strip_pos p e) as [q e']; simpl; rewrite H; reflexivity.
+Qed.
+
+Lemma flt_norm_fix : forall m e, norm (flt_norm m e) = flt_norm m e.
+Proof.
+  intros m e. unfold flt_norm. pose proof (dy_idem m e) as H. destruct (dy m e) as [m' e'].
+  simpl. unfold flt_norm. rewrite H. reflexivity.
+Qed.
+
+Lemma map_norm_fixed : forall (l : list (bytes * goval)),
+  Forall (fun kv => norm (snd kv) = snd kv) l -> map (fun kv => (fst kv, norm (snd kv))) l = l.
+Proof.
+  induction 1 as [|[k v] l H _ IH]; simpl; [reflexivity|]. simpl in H. rewrite H, IH. reflexivity.
+Qed.
+
+Lemma norm_map_idem : forall (kvs : list (bytes * goval)),
+  Forall (fun kv => norm (norm (snd kv)) = norm (snd kv)) kvs ->
+  canon (map (fun kv => (fst kv, norm (snd kv))) (canon (map (fun kv => (fst kv, norm (snd kv))) kvs)))
+  = canon (map (fun kv => (fst kv, norm (snd kv))) kvs).
+Proof.
+  intros kvs H.
+  rewrite map_norm_fixed.
+  - apply canon_idem.
+  - apply (canon_values (fun v => norm v = v)).
+    induction H as [|kv l Hk _ IH]; simpl; constructor; assumption.
+Qed.
+
+Theorem norm_idem : forall v, norm (norm v) = norm v.
+Proof.
+  induction v using goval_ind'; simpl; try reflexivity.
+  - unfold flt_of_int. pose proof (dy_idem (round53 z) 0) as H. destruct (dy (round53 z) 0) as [m e].
+    simpl. unfold flt_norm. rewrite H. reflexivity.
+  - apply flt_norm_fix.
+  - f_equal. rewrite map_map. induction H as [|x l Hx _ IH]; simpl; [reflexivity|]. rewrite Hx, IH. reflexivity.
+  - f_equal. apply norm_map_idem. assumption.
+  - f_equal. apply norm_map_idem. assumption.
+Qed.
+
+(* the literal statement: what comes back from JSON is JSON-equivalent to what went in *)
+Theorem roundtrip_json_equiv : forall v, json_equiv (decode (encode v)) v.
+Proof. intros v. unfold json_equiv. rewrite roundtrip. apply norm_idem. Qed.
+
 (* ---- prepare ------------------------------------------------------------------------ *)
 Definition is_register (e : pevent) : bool := match e with ERegister _ _ _ _ => true | _ => false end.
 Definition is_try (e : pevent) : bool := match e with ETry _ _ => true | _ => false end.
@@ -101,6 +152,13 @@ Qed.
 Corollary context_equiv : forall a fs,
   exists c, ctx_of (AJson (app_data a fs)) = Some c /\ GMap c = norm (captured a fs).
 Proof. intros a fs. eexists. split; [apply context_roundtrip|reflexivity]. Qed.
+
+Corollary context_json_equiv : forall a fs,
+  exists c, ctx_of (AJson (app_data a fs)) = Some c /\ json_equiv (GMap c) (captured a fs).
+Proof.
+  intros a fs. destruct (context_equiv a fs) as (c & Hc & He). exists c. split; [exact Hc|].
+  unfold json_equiv. rewrite He. apply norm_idem.
+Qed.
 
 (* ---- phase two ---------------------------------------------------------------------- *)
 (* the table regenerated from the current source is the one the property needs *)
